@@ -68,6 +68,10 @@ for _f in ('visit_FunctionDef', 'visit_Lambda'):
 for _f in ('__init__', '_absolute_lineno', '_absolute_col_offset'):
   SCRIPTS['malt.pyct.origin_info.OriginResolver.' + _f] = ('bounded/rt_origin.py', ['0', 'quick'])
 
+SCRIPTS['malt.operators.py_builtins.overload_of'] = ('bounded/rt_convcall.py', ['0', 'quick'])
+
+SCRIPTS['malt.impl.api.PyToPy.get_caching_key'] = ('bounded/rt_cachekey.py', [])
+
 _cache = {}
 
 
